@@ -25,6 +25,6 @@ def handle (c : Json) : JE Json := do
     -- (Props/C02.lean `dag_at_most_once`; `dag_wf_check_sound`)?
     let gd ← GraphCase.parseGraph g
     let r := Engine.compile GraphCase.defaultStepSlack gd
-    pure ((out.setObjVal! "wf" (Json.bool (Engine.DagRun.dagWFb r))).setObjVal! "wf2" (Json.bool (Engine.DagRun.dagWF2b r)))
+    pure (((out.setObjVal! "wf" (Json.bool (Engine.DagRun.dagWFb r))).setObjVal! "wf2" (Json.bool (Engine.DagRun.dagWF2b r))).setObjVal! "wf3" (Json.bool (Engine.DagRun.dagWF3b r)))
 
 end EinoV.Oracle.C02
